@@ -1205,6 +1205,11 @@ def specs_flag_pairing(prog, chk):
         if not opens:
             continue
         chk.touch(body)
+        if not closes:
+            # a setter (`enter_specs()`): returning with the flag set is its job; pairing is its callers' business
+            n += 1
+            chk.undecided("A5.specs-flag", f"{body.short}:in_specs", body.where(opens[0][0], opens[0][2]), f"{body.short} sets `in_specs` and never clears it itself (a setter that was not spliced into its callers): whether its callers pair it with the reset is not followed")
+            continue
         for (x, i, line) in opens:
             n += 1
             esc = R.escapes(body, (x, i), closes, closed_edges=closed_edges)
